@@ -82,6 +82,14 @@ CHECKS["C12"] = (
     "3/C12",
 )
 
+CHECKS["C11"] = (
+    "exploration",
+    "deterministic simulation of thread interleavings: real threads under a baton controller, seeded (random / PCT) choice of the next runner at every sched_point hook, Wing-Gong/Lowe linearizability search against the sequential cache specification, accounting check at quiescence",
+    "Seeded search over schedules of 2-3 tasks x 1-3 operations on one shared MemoryCache / DiskCache (1-2 keys, unique values, optional expired entry left by a sequential setup): every interleaving decision at the ~30 hook sites (between map operations, counter updates, temp-file open/write/fsync/rename, index update) is drawn from the seed and recorded; histories stamped with a global sequence number are checked for linearizability, spurious errors, torn/foreign values, and size()/usage against a probe of every key once all tasks finished.",
+    "Trusted: the sequential specification (map with expired-but-present entries), the hook placement (interleavings are explored at hook granularity under sequential consistency; nothing inside a DashMap operation or a held std lock; no weak-memory effects). DynamicContainer is exercised by a separate arm when its hooks are compiled in.",
+    "3/C11",
+)
+
 PENDING = {}
 
 
